@@ -3,6 +3,7 @@ import GnarkVerif.Proofs.VerifierGenPed
 import GnarkVerif.Gen.Verifier.Shplonk_bn254
 import Mathlib.Tactic.Ring
 import Mathlib.Tactic.FieldSimp
+import Mathlib.Tactic.Abel
 /-
 C17 (SHPLONK), tie T for ecc/bn254/shplonk/shplonk.go: `BatchVerify` as REGENERATED from the Go text, specialised to
 (number of polynomials, points per polynomial) ∈ {(1,[1]), (1,[2]), (2,[1,1]), (2,[2,1]), (2,[2,2])} (Gen/Verifier/Shplonk_bn254.lean).
@@ -17,6 +18,10 @@ set_option linter.unreachableTactic false
 open GV GV.Alg GV.KZG GV.Gen.Verifier GV.VerifierGen GV.ArgPairing
 namespace GV.C17gen
 variable (q : ℕ) [Fact q.Prime]
+
+omit [Fact q.Prime] in
+theorem verdict_ok_iff (b : Bool) (e : String) : (if (!b) = true then Res.err e else Res.ok) = Res.ok ↔ b = true := by
+  cases b <;> simp
 
 /-- shape [1]: the generated `BatchVerify` (exponent model, dictionary `fp q`) accepts iff `Model.ArgPairing.shVerify` accepts, with
 γ = the challenge derived from (points, CLAIMED VALUES, digests) and z = the challenge derived from W after γ — every input -/
@@ -34,7 +39,7 @@ theorem C17gen_bn254_sh_s1 (mS : Ex q → List UInt8) (mG : Ex q → List UInt8)
   apply fp_pairingCheck_congr
   simp [ArgPairing.dot, shFolded, shGz, shRi, interpolate, lagrange, vanishing, mulLin, ztMinusSi, evalP, sumP, sumN, scaleP, subP, addP,
     npow, cast_fp_inv q h2, cast_fp_sub, (by decide : List.range 2 = [0, 1]), (by decide : List.range 1 = [0]),
-    -mul_eq_mul_right_iff, -mul_eq_mul_left_iff, -mul_eq_zero, -mul_eq_mul_right_iff, -add_left_inj, -add_right_inj, -sub_left_inj,
+    -mul_eq_mul_right_iff, -mul_eq_mul_left_iff, -mul_eq_zero, -add_left_inj, -add_right_inj, -sub_left_inj,
     -sub_right_inj]
   try ring
 
@@ -49,6 +54,24 @@ theorem C17gen_bn254_sh_s1_binding {G G2 S L : Type} [AddCommGroup G] [Field S] 
     shplonk_bn254.BatchVerify_s1 toInt mS mG fsC' frB pcf W W' v00 d0 x00 q0 q1 g1 lines
       = shplonk_bn254.BatchVerify_s1 toInt mS mG fsC frB pcf W W' v00 d0 x00 q0 q1 g1 lines := by
   simp only [shplonk_bn254.BatchVerify_s1, hg, hz]
+
+/-- abstract level, shape [1]: over ANY commutative group `G` and field `S` the Go text returns nil iff the pairing check holds of
+`−(Σᵢ [γⁱ·Z_(T∖Sᵢ)(z)]Cᵢ − [Σᵢ γⁱ·Z_(T∖Sᵢ)(z)·rᵢ(z)]G₁ − [Z_T(z)]W + [z]W')` and `W'` (the scalars written with the polynomial functions of
+Model/ArgPairing.lean over the field itself), γ and z being the two transcript challenges -/
+theorem C17gen_bn254_sh_s1_abstract {G G2 S L : Type} [AddCommGroup G] [Field S] [DecidableEq S] [BEq G2] (toInt : S → Int)
+    (mS : S → List UInt8) (mG : G → List UInt8) (fsC : String → List (List UInt8) → List (List UInt8) → List UInt8)
+    (frB : List UInt8 → S) (pcf : List G → L → Bool) (W W' : G) (v00 : S) (d0 : G) (x00 : S)
+    (q0 q1 : G2) (g1 : G) (lines : L) (γ z : S) (hγ : γ = frB (fsC "gamma" [mS x00, mS v00, mG d0] [])) (hz : z = frB (fsC "z" [mG W] [fsC "gamma" [mS x00, mS v00, mG d0] []])) :
+    shplonk_bn254.BatchVerify_s1 toInt mS mG fsC frB pcf W W' v00 d0 x00 q0 q1 g1 lines = Res.ok ↔
+      pcf [-(toInt (shGz (ofField S) [[x00]] γ z 0) • d0
+            - toInt (sumN (ofField S) (fun i => shGz (ofField S) [[x00]] γ z i * evalP (ofField S) (shRi (ofField S) [[x00]] [[v00]] i) z) 1) • g1
+            - toInt (evalP (ofField S) (vanishing (ofField S) [x00]) z) • W + toInt z • W'), W'] lines = true := by
+  subst hγ hz
+  simp only [shplonk_bn254.BatchVerify_s1, verdict_ok_iff]
+  refine iff_of_eq (congrArg (fun t => pcf [-t, W'] lines = true) ?_)
+  simp [shGz, shRi, interpolate, lagrange, vanishing, mulLin, ztMinusSi, evalP, sumP, sumN, scaleP, subP, addP, npow,
+    -mul_eq_mul_right_iff, -mul_eq_mul_left_iff, -mul_eq_zero, -add_left_inj, -add_right_inj, -sub_left_inj, -sub_right_inj]
+  try ring_nf
 
 /-- shape [2]: the generated `BatchVerify` (exponent model, dictionary `fp q`) accepts iff `Model.ArgPairing.shVerify` accepts, with
 γ = the challenge derived from (points, CLAIMED VALUES, digests) and z = the challenge derived from W after γ — every input -/
@@ -66,7 +89,7 @@ theorem C17gen_bn254_sh_s2 (mS : Ex q → List UInt8) (mG : Ex q → List UInt8)
   apply fp_pairingCheck_congr
   simp [ArgPairing.dot, shFolded, shGz, shRi, interpolate, lagrange, vanishing, mulLin, ztMinusSi, evalP, sumP, sumN, scaleP, subP, addP,
     npow, cast_fp_inv q h2, cast_fp_sub, (by decide : List.range 2 = [0, 1]), (by decide : List.range 1 = [0]),
-    -mul_eq_mul_right_iff, -mul_eq_mul_left_iff, -mul_eq_zero, -mul_eq_mul_right_iff, -add_left_inj, -add_right_inj, -sub_left_inj,
+    -mul_eq_mul_right_iff, -mul_eq_mul_left_iff, -mul_eq_zero, -add_left_inj, -add_right_inj, -sub_left_inj,
     -sub_right_inj]
   try ring
 
@@ -81,6 +104,24 @@ theorem C17gen_bn254_sh_s2_binding {G G2 S L : Type} [AddCommGroup G] [Field S] 
     shplonk_bn254.BatchVerify_s2 toInt mS mG fsC' frB pcf W W' v00 v01 d0 x00 x01 q0 q1 g1 lines
       = shplonk_bn254.BatchVerify_s2 toInt mS mG fsC frB pcf W W' v00 v01 d0 x00 x01 q0 q1 g1 lines := by
   simp only [shplonk_bn254.BatchVerify_s2, hg, hz]
+
+/-- abstract level, shape [2]: over ANY commutative group `G` and field `S` the Go text returns nil iff the pairing check holds of
+`−(Σᵢ [γⁱ·Z_(T∖Sᵢ)(z)]Cᵢ − [Σᵢ γⁱ·Z_(T∖Sᵢ)(z)·rᵢ(z)]G₁ − [Z_T(z)]W + [z]W')` and `W'` (the scalars written with the polynomial functions of
+Model/ArgPairing.lean over the field itself), γ and z being the two transcript challenges -/
+theorem C17gen_bn254_sh_s2_abstract {G G2 S L : Type} [AddCommGroup G] [Field S] [DecidableEq S] [BEq G2] (toInt : S → Int)
+    (mS : S → List UInt8) (mG : G → List UInt8) (fsC : String → List (List UInt8) → List (List UInt8) → List UInt8)
+    (frB : List UInt8 → S) (pcf : List G → L → Bool) (W W' : G) (v00 v01 : S) (d0 : G) (x00 x01 : S)
+    (q0 q1 : G2) (g1 : G) (lines : L) (γ z : S) (hγ : γ = frB (fsC "gamma" [mS x00, mS x01, mS v00, mS v01, mG d0] [])) (hz : z = frB (fsC "z" [mG W] [fsC "gamma" [mS x00, mS x01, mS v00, mS v01, mG d0] []])) :
+    shplonk_bn254.BatchVerify_s2 toInt mS mG fsC frB pcf W W' v00 v01 d0 x00 x01 q0 q1 g1 lines = Res.ok ↔
+      pcf [-(toInt (shGz (ofField S) [[x00, x01]] γ z 0) • d0
+            - toInt (sumN (ofField S) (fun i => shGz (ofField S) [[x00, x01]] γ z i * evalP (ofField S) (shRi (ofField S) [[x00, x01]] [[v00, v01]] i) z) 1) • g1
+            - toInt (evalP (ofField S) (vanishing (ofField S) [x00, x01]) z) • W + toInt z • W'), W'] lines = true := by
+  subst hγ hz
+  simp only [shplonk_bn254.BatchVerify_s2, verdict_ok_iff]
+  refine iff_of_eq (congrArg (fun t => pcf [-t, W'] lines = true) ?_)
+  simp [shGz, shRi, interpolate, lagrange, vanishing, mulLin, ztMinusSi, evalP, sumP, sumN, scaleP, subP, addP, npow,
+    -mul_eq_mul_right_iff, -mul_eq_mul_left_iff, -mul_eq_zero, -add_left_inj, -add_right_inj, -sub_left_inj, -sub_right_inj]
+  try ring_nf
 
 /-- shape [1, 1]: the generated `BatchVerify` (exponent model, dictionary `fp q`) accepts iff `Model.ArgPairing.shVerify` accepts, with
 γ = the challenge derived from (points, CLAIMED VALUES, digests) and z = the challenge derived from W after γ — every input -/
@@ -98,7 +139,7 @@ theorem C17gen_bn254_sh_s11 (mS : Ex q → List UInt8) (mG : Ex q → List UInt8
   apply fp_pairingCheck_congr
   simp [ArgPairing.dot, shFolded, shGz, shRi, interpolate, lagrange, vanishing, mulLin, ztMinusSi, evalP, sumP, sumN, scaleP, subP, addP,
     npow, cast_fp_inv q h2, cast_fp_sub, (by decide : List.range 2 = [0, 1]), (by decide : List.range 1 = [0]),
-    -mul_eq_mul_right_iff, -mul_eq_mul_left_iff, -mul_eq_zero, -mul_eq_mul_right_iff, -add_left_inj, -add_right_inj, -sub_left_inj,
+    -mul_eq_mul_right_iff, -mul_eq_mul_left_iff, -mul_eq_zero, -add_left_inj, -add_right_inj, -sub_left_inj,
     -sub_right_inj]
   try ring
 
@@ -113,6 +154,24 @@ theorem C17gen_bn254_sh_s11_binding {G G2 S L : Type} [AddCommGroup G] [Field S]
     shplonk_bn254.BatchVerify_s11 toInt mS mG fsC' frB pcf W W' v00 v10 d0 d1 x00 x10 q0 q1 g1 lines
       = shplonk_bn254.BatchVerify_s11 toInt mS mG fsC frB pcf W W' v00 v10 d0 d1 x00 x10 q0 q1 g1 lines := by
   simp only [shplonk_bn254.BatchVerify_s11, hg, hz]
+
+/-- abstract level, shape [1, 1]: over ANY commutative group `G` and field `S` the Go text returns nil iff the pairing check holds of
+`−(Σᵢ [γⁱ·Z_(T∖Sᵢ)(z)]Cᵢ − [Σᵢ γⁱ·Z_(T∖Sᵢ)(z)·rᵢ(z)]G₁ − [Z_T(z)]W + [z]W')` and `W'` (the scalars written with the polynomial functions of
+Model/ArgPairing.lean over the field itself), γ and z being the two transcript challenges -/
+theorem C17gen_bn254_sh_s11_abstract {G G2 S L : Type} [AddCommGroup G] [Field S] [DecidableEq S] [BEq G2] (toInt : S → Int)
+    (mS : S → List UInt8) (mG : G → List UInt8) (fsC : String → List (List UInt8) → List (List UInt8) → List UInt8)
+    (frB : List UInt8 → S) (pcf : List G → L → Bool) (W W' : G) (v00 v10 : S) (d0 d1 : G) (x00 x10 : S)
+    (q0 q1 : G2) (g1 : G) (lines : L) (γ z : S) (hγ : γ = frB (fsC "gamma" [mS x00, mS x10, mS v00, mS v10, mG d0, mG d1] [])) (hz : z = frB (fsC "z" [mG W] [fsC "gamma" [mS x00, mS x10, mS v00, mS v10, mG d0, mG d1] []])) :
+    shplonk_bn254.BatchVerify_s11 toInt mS mG fsC frB pcf W W' v00 v10 d0 d1 x00 x10 q0 q1 g1 lines = Res.ok ↔
+      pcf [-(toInt (shGz (ofField S) [[x00], [x10]] γ z 0) • d0 + toInt (shGz (ofField S) [[x00], [x10]] γ z 1) • d1
+            - toInt (sumN (ofField S) (fun i => shGz (ofField S) [[x00], [x10]] γ z i * evalP (ofField S) (shRi (ofField S) [[x00], [x10]] [[v00], [v10]] i) z) 2) • g1
+            - toInt (evalP (ofField S) (vanishing (ofField S) [x00, x10]) z) • W + toInt z • W'), W'] lines = true := by
+  subst hγ hz
+  simp only [shplonk_bn254.BatchVerify_s11, verdict_ok_iff]
+  refine iff_of_eq (congrArg (fun t => pcf [-t, W'] lines = true) ?_)
+  simp [shGz, shRi, interpolate, lagrange, vanishing, mulLin, ztMinusSi, evalP, sumP, sumN, scaleP, subP, addP, npow,
+    -mul_eq_mul_right_iff, -mul_eq_mul_left_iff, -mul_eq_zero, -add_left_inj, -add_right_inj, -sub_left_inj, -sub_right_inj]
+  try ring_nf
 
 /-- shape [2, 1]: the generated `BatchVerify` (exponent model, dictionary `fp q`) accepts iff `Model.ArgPairing.shVerify` accepts, with
 γ = the challenge derived from (points, CLAIMED VALUES, digests) and z = the challenge derived from W after γ — every input -/
@@ -130,7 +189,7 @@ theorem C17gen_bn254_sh_s21 (mS : Ex q → List UInt8) (mG : Ex q → List UInt8
   apply fp_pairingCheck_congr
   simp [ArgPairing.dot, shFolded, shGz, shRi, interpolate, lagrange, vanishing, mulLin, ztMinusSi, evalP, sumP, sumN, scaleP, subP, addP,
     npow, cast_fp_inv q h2, cast_fp_sub, (by decide : List.range 2 = [0, 1]), (by decide : List.range 1 = [0]),
-    -mul_eq_mul_right_iff, -mul_eq_mul_left_iff, -mul_eq_zero, -mul_eq_mul_right_iff, -add_left_inj, -add_right_inj, -sub_left_inj,
+    -mul_eq_mul_right_iff, -mul_eq_mul_left_iff, -mul_eq_zero, -add_left_inj, -add_right_inj, -sub_left_inj,
     -sub_right_inj]
   try ring
 
@@ -145,6 +204,24 @@ theorem C17gen_bn254_sh_s21_binding {G G2 S L : Type} [AddCommGroup G] [Field S]
     shplonk_bn254.BatchVerify_s21 toInt mS mG fsC' frB pcf W W' v00 v01 v10 d0 d1 x00 x01 x10 q0 q1 g1 lines
       = shplonk_bn254.BatchVerify_s21 toInt mS mG fsC frB pcf W W' v00 v01 v10 d0 d1 x00 x01 x10 q0 q1 g1 lines := by
   simp only [shplonk_bn254.BatchVerify_s21, hg, hz]
+
+/-- abstract level, shape [2, 1]: over ANY commutative group `G` and field `S` the Go text returns nil iff the pairing check holds of
+`−(Σᵢ [γⁱ·Z_(T∖Sᵢ)(z)]Cᵢ − [Σᵢ γⁱ·Z_(T∖Sᵢ)(z)·rᵢ(z)]G₁ − [Z_T(z)]W + [z]W')` and `W'` (the scalars written with the polynomial functions of
+Model/ArgPairing.lean over the field itself), γ and z being the two transcript challenges -/
+theorem C17gen_bn254_sh_s21_abstract {G G2 S L : Type} [AddCommGroup G] [Field S] [DecidableEq S] [BEq G2] (toInt : S → Int)
+    (mS : S → List UInt8) (mG : G → List UInt8) (fsC : String → List (List UInt8) → List (List UInt8) → List UInt8)
+    (frB : List UInt8 → S) (pcf : List G → L → Bool) (W W' : G) (v00 v01 v10 : S) (d0 d1 : G) (x00 x01 x10 : S)
+    (q0 q1 : G2) (g1 : G) (lines : L) (γ z : S) (hγ : γ = frB (fsC "gamma" [mS x00, mS x01, mS x10, mS v00, mS v01, mS v10, mG d0, mG d1] [])) (hz : z = frB (fsC "z" [mG W] [fsC "gamma" [mS x00, mS x01, mS x10, mS v00, mS v01, mS v10, mG d0, mG d1] []])) :
+    shplonk_bn254.BatchVerify_s21 toInt mS mG fsC frB pcf W W' v00 v01 v10 d0 d1 x00 x01 x10 q0 q1 g1 lines = Res.ok ↔
+      pcf [-(toInt (shGz (ofField S) [[x00, x01], [x10]] γ z 0) • d0 + toInt (shGz (ofField S) [[x00, x01], [x10]] γ z 1) • d1
+            - toInt (sumN (ofField S) (fun i => shGz (ofField S) [[x00, x01], [x10]] γ z i * evalP (ofField S) (shRi (ofField S) [[x00, x01], [x10]] [[v00, v01], [v10]] i) z) 2) • g1
+            - toInt (evalP (ofField S) (vanishing (ofField S) [x00, x01, x10]) z) • W + toInt z • W'), W'] lines = true := by
+  subst hγ hz
+  simp only [shplonk_bn254.BatchVerify_s21, verdict_ok_iff]
+  refine iff_of_eq (congrArg (fun t => pcf [-t, W'] lines = true) ?_)
+  simp [shGz, shRi, interpolate, lagrange, vanishing, mulLin, ztMinusSi, evalP, sumP, sumN, scaleP, subP, addP, npow,
+    -mul_eq_mul_right_iff, -mul_eq_mul_left_iff, -mul_eq_zero, -add_left_inj, -add_right_inj, -sub_left_inj, -sub_right_inj]
+  try ring_nf
 
 /-- shape [2, 2]: the generated `BatchVerify` (exponent model, dictionary `fp q`) accepts iff `Model.ArgPairing.shVerify` accepts, with
 γ = the challenge derived from (points, CLAIMED VALUES, digests) and z = the challenge derived from W after γ — every input -/
@@ -162,7 +239,7 @@ theorem C17gen_bn254_sh_s22 (mS : Ex q → List UInt8) (mG : Ex q → List UInt8
   apply fp_pairingCheck_congr
   simp [ArgPairing.dot, shFolded, shGz, shRi, interpolate, lagrange, vanishing, mulLin, ztMinusSi, evalP, sumP, sumN, scaleP, subP, addP,
     npow, cast_fp_inv q h2, cast_fp_sub, (by decide : List.range 2 = [0, 1]), (by decide : List.range 1 = [0]),
-    -mul_eq_mul_right_iff, -mul_eq_mul_left_iff, -mul_eq_zero, -mul_eq_mul_right_iff, -add_left_inj, -add_right_inj, -sub_left_inj,
+    -mul_eq_mul_right_iff, -mul_eq_mul_left_iff, -mul_eq_zero, -add_left_inj, -add_right_inj, -sub_left_inj,
     -sub_right_inj]
   try ring
 
@@ -177,5 +254,23 @@ theorem C17gen_bn254_sh_s22_binding {G G2 S L : Type} [AddCommGroup G] [Field S]
     shplonk_bn254.BatchVerify_s22 toInt mS mG fsC' frB pcf W W' v00 v01 v10 v11 d0 d1 x00 x01 x10 x11 q0 q1 g1 lines
       = shplonk_bn254.BatchVerify_s22 toInt mS mG fsC frB pcf W W' v00 v01 v10 v11 d0 d1 x00 x01 x10 x11 q0 q1 g1 lines := by
   simp only [shplonk_bn254.BatchVerify_s22, hg, hz]
+
+/-- abstract level, shape [2, 2]: over ANY commutative group `G` and field `S` the Go text returns nil iff the pairing check holds of
+`−(Σᵢ [γⁱ·Z_(T∖Sᵢ)(z)]Cᵢ − [Σᵢ γⁱ·Z_(T∖Sᵢ)(z)·rᵢ(z)]G₁ − [Z_T(z)]W + [z]W')` and `W'` (the scalars written with the polynomial functions of
+Model/ArgPairing.lean over the field itself), γ and z being the two transcript challenges -/
+theorem C17gen_bn254_sh_s22_abstract {G G2 S L : Type} [AddCommGroup G] [Field S] [DecidableEq S] [BEq G2] (toInt : S → Int)
+    (mS : S → List UInt8) (mG : G → List UInt8) (fsC : String → List (List UInt8) → List (List UInt8) → List UInt8)
+    (frB : List UInt8 → S) (pcf : List G → L → Bool) (W W' : G) (v00 v01 v10 v11 : S) (d0 d1 : G) (x00 x01 x10 x11 : S)
+    (q0 q1 : G2) (g1 : G) (lines : L) (γ z : S) (hγ : γ = frB (fsC "gamma" [mS x00, mS x01, mS x10, mS x11, mS v00, mS v01, mS v10, mS v11, mG d0, mG d1] [])) (hz : z = frB (fsC "z" [mG W] [fsC "gamma" [mS x00, mS x01, mS x10, mS x11, mS v00, mS v01, mS v10, mS v11, mG d0, mG d1] []])) :
+    shplonk_bn254.BatchVerify_s22 toInt mS mG fsC frB pcf W W' v00 v01 v10 v11 d0 d1 x00 x01 x10 x11 q0 q1 g1 lines = Res.ok ↔
+      pcf [-(toInt (shGz (ofField S) [[x00, x01], [x10, x11]] γ z 0) • d0 + toInt (shGz (ofField S) [[x00, x01], [x10, x11]] γ z 1) • d1
+            - toInt (sumN (ofField S) (fun i => shGz (ofField S) [[x00, x01], [x10, x11]] γ z i * evalP (ofField S) (shRi (ofField S) [[x00, x01], [x10, x11]] [[v00, v01], [v10, v11]] i) z) 2) • g1
+            - toInt (evalP (ofField S) (vanishing (ofField S) [x00, x01, x10, x11]) z) • W + toInt z • W'), W'] lines = true := by
+  subst hγ hz
+  simp only [shplonk_bn254.BatchVerify_s22, verdict_ok_iff]
+  refine iff_of_eq (congrArg (fun t => pcf [-t, W'] lines = true) ?_)
+  simp [shGz, shRi, interpolate, lagrange, vanishing, mulLin, ztMinusSi, evalP, sumP, sumN, scaleP, subP, addP, npow,
+    -mul_eq_mul_right_iff, -mul_eq_mul_left_iff, -mul_eq_zero, -add_left_inj, -add_right_inj, -sub_left_inj, -sub_right_inj]
+  try ring_nf
 
 end GV.C17gen
